@@ -257,6 +257,12 @@ func c03RunOpt(t *testing.T, c c03Case, enabledCounts *[]int, forceS5 bool) (res
 			}()
 		}
 		consecutiveLost := make([]int, len(tasks))
+		// errJustified[i]: task i may legitimately be in TaskErr (it started there, a fatal error was
+		// injected into it, or it was lost maxConsecutiveLost times in a row)
+		errJustified := make([]bool, len(tasks))
+		for i, tk := range tasks {
+			errJustified[i] = tk.state == TaskErr
+		}
 		// Known finding (see known_findings.json): with two concurrent evaluations sharing a task, the
 		// runner's watcher can miss a LOST state that the other evaluation already resubmitted, so
 		// consecutive losses are miscounted. That class is excluded by construction and counted.
@@ -305,6 +311,12 @@ func c03RunOpt(t *testing.T, c c03Case, enabledCounts *[]int, forceS5 bool) (res
 					}
 				} else if ev.err != context.Canceled && !anyErrState() {
 					fail("%s: evaluation %d gave up with %q although no task failed fatally or was lost five times in a row", step, i, ev.err)
+					return
+				}
+			}
+			for i, tk := range tasks {
+				if tk.State() == TaskErr && !errJustified[i] {
+					fail("%s: S5: task %d is marked failed although no fatal error was injected into it and it was lost on at most %d consecutive attempts (lost tasks must be resubmitted until %d consecutive losses)", step, i, consecutiveLost[i], maxConsecutiveLost)
 					return
 				}
 			}
@@ -370,6 +382,9 @@ func c03RunOpt(t *testing.T, c c03Case, enabledCounts *[]int, forceS5 bool) (res
 			case "lost":
 				delete(ex.outstanding, ev.task)
 				consecutiveLost[ev.task]++
+				if consecutiveLost[ev.task] >= maxConsecutiveLost {
+					errJustified[ev.task] = true
+				}
 				if consecutiveLost[ev.task] == maxConsecutiveLost && len(c.Roots) > 1 && !forceS5 {
 					res.excludedS5++
 				}
@@ -378,6 +393,7 @@ func c03RunOpt(t *testing.T, c c03Case, enabledCounts *[]int, forceS5 bool) (res
 			case "err":
 				delete(ex.outstanding, ev.task)
 				res.errs++
+				errJustified[ev.task] = true
 				tk.Error(fmt.Errorf("injected fatal error"))
 			case "xlost":
 				res.losses++
@@ -398,6 +414,17 @@ func c03RunOpt(t *testing.T, c c03Case, enabledCounts *[]int, forceS5 bool) (res
 				break
 			}
 			ev := en[sel%len(en)]
+			if sel >= 1000 {
+				// semantic selectors (loss-heavy histories): 1000 lose / 1001 complete the first outstanding
+				// task, 1002 lose the output of the first completed task; fall back to the plain selector
+				want := map[int]string{1000: "lost", 1001: "ok", 1002: "xlost"}[sel]
+				for _, cand := range en {
+					if cand.kind == want {
+						ev = cand
+						break
+					}
+				}
+			}
 			res.events++
 			apply(ev)
 			check(fmt.Sprintf("after event %d (%s task %d)", res.events, ev.kind, ev.task))
@@ -484,7 +511,12 @@ func c03Gen(t *rapid.T) c03Case {
 	if rapid.IntRange(0, 2).Draw(t, "reuse") == 0 {
 		c.Init = rapid.SliceOfN(rapid.SampledFrom([]int{0, 1, 1, 1, 2, 3}), ntasks, ntasks).Draw(t, "init")
 	}
-	c.Events = rapid.SliceOfN(rapid.IntRange(0, 59), 0, 24).Draw(t, "events")
+	if rapid.IntRange(0, 3).Draw(t, "lossheavy") == 0 {
+		// loss-heavy: long runs of losses of one task, interleaved with completions and later output losses
+		c.Events = rapid.SliceOfN(rapid.SampledFrom([]int{1000, 1000, 1000, 1000, 1001, 1002, 1002, 7, 22}), 0, 40).Draw(t, "events")
+	} else {
+		c.Events = rapid.SliceOfN(rapid.IntRange(0, 59), 0, 24).Draw(t, "events")
+	}
 	return c
 }
 
@@ -638,6 +670,64 @@ func TestVerifC03EvalEnum(t *testing.T) {
 	rec.Exhaustive = true
 }
 
+
+const c03Loss = "TestVerifC03EvalLossEnum"
+
+// TestVerifC03EvalLossEnum enumerates completely all histories over the
+// semantic alphabet {lose the first handed-out task, complete it, lose the
+// output of the first completed task} on small graphs, deep enough for a task
+// to be lost maxConsecutiveLost times with completions in between.
+func TestVerifC03EvalLossEnum(t *testing.T) {
+	depth := vt.Pick(8, 11)
+	rec := vt.New("C03", "loss-enumeration",
+		fmt.Sprintf("complete enumeration of all histories of length <= %d over the alphabet {lose the first handed-out task, complete it successfully, lose the output of the first completed task} on three graphs (single task, chain of two, producer with two consumers), one evaluation; same invariants; non-trivial = history has a loss; distinct by (graph, history)", depth))
+	if _, only := vt.Replays(c03Loss); only {
+		return
+	}
+	graphs := []c03Case{
+		{Phases: []c03Phase{{N: 1}}, Roots: [][]int{{0}}},
+		{Phases: []c03Phase{{N: 1}, {N: 1, Deps: [][]int{{0}}}}, Roots: [][]int{{1}}},
+		{Phases: []c03Phase{{N: 1}, {N: 2, Deps: [][]int{{0}, {0}}}}, Roots: [][]int{{1}}},
+	}
+	reported := false
+	idx := 0
+	for gi, g := range graphs {
+		var dfs func(prefix []int)
+		dfs = func(prefix []int) {
+			if len(prefix) == 2 {
+				idx++
+				if !vt.Mine(idx) {
+					return
+				}
+			}
+			if len(prefix) >= 2 || vt.Shard() == 0 {
+				c := g
+				c.Events = prefix
+				res := c03Run(t, c, nil)
+				rec.Case(res.losses > 0, vt.Hash("loss", gi, fmt.Sprint(prefix)), fmt.Sprintf("loss-graph-%d", gi))
+				if res.losses >= 5 && rec.WantSample(fmt.Sprintf("loss-graph-%d", gi)) {
+					rec.Sample(fmt.Sprintf("loss-graph-%d", gi), map[string]interface{}{"graph": gi, "events": prefix, "losses": res.losses})
+				}
+				if res.violation != "" {
+					if !reported {
+						reported = true
+						rec.Violation(c03Random, c03Sig(res.violation), res.violation, c)
+						t.Errorf("graph %d history %v: %v", gi, prefix, res.violation)
+					}
+					return
+				}
+			}
+			if len(prefix) == depth {
+				return
+			}
+			for _, sel := range []int{1000, 1001, 1002} {
+				dfs(append(append([]int{}, prefix...), sel))
+			}
+		}
+		dfs(nil)
+	}
+	rec.Exhaustive = true
+}
 
 // TestVerifC03KnownS5 executes the canonical instance of the recorded known
 // finding "consecutive losses are miscounted when two evaluations share the
